@@ -85,9 +85,7 @@ func VerifC19_listing() {
 	fixedNames := []string{"zz-app", "zz-app.wide", "zz-app.wide.x", "zz-b", "zz-c", "zz-d", "Json", "HTML"}
 	glyphs := []string{"1", "2", "3", "4", "5", "6", "7", "8"}
 	for i := 0; i < nfix; i++ {
-		d := decoration.Decoration{Horizontal: "-", Vertical: "|", CrossPiece: glyphs[i]}
-		d.Populate()
-		decoration.RegisterDecorationName(fixedNames[i], d)
+		decoration.RegisterDecorationName(fixedNames[i], vfFixedDeco(glyphs[i], i))
 		extra = append(extra, fixedNames[i])
 	}
 	first := ListStyles()
@@ -133,8 +131,7 @@ func VerifC19_listing() {
 		// an application-registered name selects the decoration registered under exactly that name
 		for i := 0; i < nfix && i < 6; i++ {
 			if name == fixedNames[i] {
-				d := decoration.Decoration{Horizontal: "-", Vertical: "|", CrossPiece: glyphs[i]}
-				d.Populate()
+				d := vfFixedDeco(glyphs[i], i)
 				wantOut, _ := vfTextWith(d)
 				vfAssert(out == wantOut, "listed-name-selects-its-own-decoration")
 				prefix := []string{"texttable.", "TextTable.", "TEXTTABLE."}[vfChoice("prefix-case", 3)]
@@ -143,6 +140,18 @@ func VerifC19_listing() {
 			}
 		}
 	}
+}
+
+// vfFixedDeco is the decoration registered under the i-th application name; the fourth one is a
+// complete set of drawing pieces in which the two fields that only serve Populate as defaults
+// (Horizontal, Vertical) were left empty by its author.
+func vfFixedDeco(glyph string, i int) decoration.Decoration {
+	d := decoration.Decoration{Horizontal: "-", Vertical: "|", CrossPiece: glyph}
+	d.Populate()
+	if i == 3 {
+		d.Horizontal, d.Vertical = "", ""
+	}
+	return d
 }
 
 func vfTextWith(d decoration.Decoration) (string, error) {
@@ -341,4 +350,34 @@ func VerifC19_history() {
 	outA, errA := again.Render()
 	wantA, _ := vfTextWith(decoration.UTF8BoxHeavy())
 	vfAssert(vfAnd(errA == nil, outA == wantA), "plain-texttable-selects-default-decoration")
+}
+
+// VerifC19_foreign: style strings with characters that only look like, or case-fold onto, the letters of
+// a renderer name (long s, full-width letters, a zero-width space, a Cyrillic letter) are unknown names: a text table that fails
+// to render - unless the application registered a decoration under exactly that name.
+func VerifC19_foreign() {
+	// (not among them: the Kelvin sign, whose lower case is the letter k - "mar\u212adown" is markdown)
+	styles := []string{"c\u017fv", "J\u017fON", "\uff43\uff53\uff56", "html\u200b", "te\u0445ttable"}
+	k := vfChoice("style", len(styles))
+	style := styles[k]
+	registered := vfChoice("registered", 2) == 1
+	d := decoration.ASCIIBoxSimple()
+	d.CrossPiece = "%"
+	if registered {
+		decoration.RegisterDecorationName(style, d)
+	}
+	w := New(style)
+	vfSmall(w)
+	tt, ok := w.(*texttable.TextTable)
+	vfAssert(ok, "unknown-name-is-a-text-table")
+	if !ok {
+		return
+	}
+	out, err := tt.Render()
+	if registered {
+		wantOut, _ := vfTextWith(d)
+		vfAssert(vfAnd(err == nil, out == wantOut), "name-and-texttable-dot-name-select-same-decoration")
+	} else {
+		vfAssert(vfAnd(err != nil, out == ""), "unknown-name-fails-to-render")
+	}
 }
